@@ -65,7 +65,7 @@ extern int mpt_stream_sync(MPT_STRUCT(stream) *srm, size_t idlen, const MPT_STRU
 			return MPT_ERROR(BadArgument);
 		}
 		/* get message data */
-		if (srm->_rd._state.data.msg < 0) {
+		while (srm->_rd._state.data.msg < 0) {
 			if ((ret = mpt_stream_poll(srm, POLLIN, timeout)) < 0) {
 				return MPT_ERROR(BadOperation);
 			}
@@ -75,11 +75,8 @@ extern int mpt_stream_sync(MPT_STRUCT(stream) *srm, size_t idlen, const MPT_STRU
 			if (timeout > 0) {
 				timeout = 0;
 			}
-			if ((ret = mpt_queue_recv(&srm->_rd))) {
+			if ((ret = mpt_queue_recv(&srm->_rd)) < 0) {
 				return ret;
-			}
-			if (ret) {
-				break;
 			}
 		}
 		/* remove processed data */
@@ -111,7 +108,11 @@ extern int mpt_stream_sync(MPT_STRUCT(stream) *srm, size_t idlen, const MPT_STRU
 			ret = mc->cmd(mc->arg, &msg);
 		}
 		else {
-			continue;
+			ret = 0;
+		}
+		/* reply is processed, advance to next message */
+		if (mpt_queue_recv(&srm->_rd) < 0) {
+			srm->_rd._state.data.msg = -1;
 		}
 		if (ret < 0) {
 			break;
